@@ -94,6 +94,13 @@ impl Builtins {
         Ok(contents.into())
     }
 
+    fn get_file_as_bytes(&self, path: &str) -> Result<Vec<u8>, Error> {
+        let mut f = File::open(path)?;
+        let mut contents = Vec::new();
+        f.read_to_end(&mut contents)?;
+        Ok(contents)
+    }
+
     fn import<O, E>(
         &mut self,
         stack: &mut Vec<(Rc<Value>, Position)>,
@@ -207,12 +214,16 @@ impl Builtins {
             stack.push((
                 Rc::new(match env.borrow().importer_registry.get_importer(&typ) {
                     Some(importer) => {
-                        let contents = self.get_file_as_string(&path)?;
-                        if contents.is_empty() {
+                        // Importers work on bytes. The base64 ones in
+                        // particular are there for files that are not text.
+                        let contents = self.get_file_as_bytes(&path)?;
+                        let is_base64 = typ.as_ref() == "b64" || typ.as_ref() == "b64urlsafe";
+                        // The base64 encoding of nothing is the empty string.
+                        if contents.is_empty() && !is_base64 {
                             eprintln!("including an empty file. Use NULL as the result");
                             P(Empty)
                         } else {
-                            match importer.import(contents.as_bytes()) {
+                            match importer.import(contents.as_slice()) {
                                 Ok(v) => v.into(),
                                 Err(e) => return Err(Error::new(format!("{}", e).into(), pos)),
                             }
